@@ -1280,3 +1280,111 @@ def rule_a2(prog, rep, om, units, sm, rid='A2'):
                                   '%s %s at line %s and a may-fail allocation (%s at line %s) is still ahead in the same operation: '
                                   'if it fails the call reports failure with the container already changed'
                                   % (f.name, what, x.get('_line'), canon(children(c)[0])[:30] + '()', c.get('_line')))
+
+
+# --------------------------------------------------------------------------------------
+# M5: realloc() is never asked for zero bytes
+
+NONZERO_FIELDS = {('qvector_s', 'objsize'): 'the constructor rejects 0 and the field is immutable afterwards (rule V1)'}
+
+
+class NonZero:
+    """Must-analysis: integer locals/params known to be non-zero at each node."""
+
+    def __init__(self, f):
+        from .dataflow import node_defs
+        self.f = f
+        cfg = f.cfg
+        names = {}
+        for x in walk(f.decl):
+            if x.get('kind') in ('VarDecl', 'ParmVarDecl'):
+                names[x.get('id')] = x.get('name')
+        self.IN = {cfg.entry.id: frozenset()}
+        work = [cfg.entry]
+        while work:
+            n = work.pop()
+            st = set(self.IN[n.id])
+            for (var, rhs, kind, _l) in node_defs(n):
+                nm = names.get(var)
+                if nm is None:
+                    continue
+                if kind in ('init', 'assign') and rhs is not None and self.expr_nonzero(rhs, st):
+                    st.add(nm)
+                elif kind == 'update' and rhs is not None and rhs.get('kind') == 'CompoundAssignOperator' \
+                        and rhs.get('opcode') == '*=' and nm in st and self.expr_nonzero(children(rhs)[1], st):
+                    pass
+                elif kind == 'update' and rhs is not None and rhs.get('kind') == 'UnaryOperator' and rhs.get('opcode') == '++' \
+                        and 'unsigned' in (((strip(children(rhs)[0]).get('type') or {}).get('desugaredQualType')) or qtype(strip(children(rhs)[0]))):
+                    st.add(nm)
+                else:
+                    st.discard(nm)
+            for (s, lab) in n.succs:
+                st2 = set(st)
+                if n.kind == 'cond' and lab in ('T', 'F') and isinstance(n.ast, dict):
+                    c = strip_parens(n.ast)
+                    v, nz_on_true = None, None
+                    if c.get('kind') == 'BinaryOperator' and c.get('opcode') in ('==', '!=', '>'):
+                        a, b = children(c)
+                        if int_value_(b) == 0 and access_path(a):
+                            v = access_path(a)
+                            nz_on_true = c.get('opcode') in ('!=', '>')
+                        elif int_value_(a) == 0 and access_path(b) and c.get('opcode') in ('==', '!='):
+                            v = access_path(b)
+                            nz_on_true = c.get('opcode') == '!='
+                    elif access_path(c) and not qtype(strip(c)).rstrip().endswith('*'):
+                        v, nz_on_true = access_path(c), True
+                    if v is not None and ((lab == 'T') == nz_on_true):
+                        st2.add(v)
+                old = self.IN.get(s.id)
+                new = frozenset(st2) if old is None else (old & frozenset(st2))
+                if old is None or new != old:
+                    self.IN[s.id] = new
+                    work.append(s)
+
+    def expr_nonzero(self, e, st):
+        s = strip(e)
+        v = int_value_(s)
+        if v is not None and not isinstance(v, str):
+            return v != 0
+        k = s.get('kind')
+        if k == 'UnaryExprOrTypeTraitExpr':
+            return True
+        if k == 'DeclRefExpr':
+            return access_path(s) in st
+        if k == 'MemberExpr':
+            fo = s.get('_field')
+            return bool(fo) and (fo[0], fo[1]) in NONZERO_FIELDS
+        if k == 'BinaryOperator' and s.get('opcode') == '*':
+            return all(self.expr_nonzero(c, st) for c in children(s))
+        if k == 'BinaryOperator' and s.get('opcode') == '+':
+            a, b = children(s)
+            ua = 'unsigned' in (((strip(a).get('type') or {}).get('desugaredQualType')) or qtype(strip(a)))
+            ub = 'unsigned' in (((strip(b).get('type') or {}).get('desugaredQualType')) or qtype(strip(b)))
+            return (ua and ub) and (self.expr_nonzero(a, st) or self.expr_nonzero(b, st))
+        return False
+
+    def at(self, node, e):
+        return self.expr_nonzero(e, set(self.IN.get(node.id, ())))
+
+
+def rule_m5(prog, rep, units, rid='M5'):
+    rep.rule(rid, 'realloc() is never asked for zero bytes (realloc(p, 0) frees p; a NULL result read as "failed, keep p" leaves p dangling)')
+    for rel in units:
+        for f in sorted(prog.funcs_in(rel), key=lambda x: x.line or 0):
+            nz = None
+            for n in f.cfg.nodes:
+                if n.id not in f.cfg.reachable or not isinstance(n.ast, dict) or n.kind == 'macro':
+                    continue
+                for x in walk(n.ast):
+                    if x.get('kind') == 'CallExpr' and prog.callee_name(x) == 'realloc' and len(children(x)) > 2:
+                        rep.instance(rid)
+                        if nz is None:
+                            nz = NonZero(f)
+                        ok = nz.at(n, children(x)[2])
+                        rep.oblige(rid, ok, {'function': f.name, 'size': canon(children(x)[2])[:60]})
+                        if not ok:
+                            rep.violation(rid, f, x.get('_line'), 'realloc:%s' % canon(children(x)[1])[:30],
+                                          'realloc(%s, %s): the size is not proven non-zero on all paths; for 0 the block is freed '
+                                          'and NULL returned, which the caller reads as failure and keeps using %s'
+                                          % (canon(children(x)[1])[:30], canon(children(x)[2])[:40], canon(children(x)[1])[:30]))
+    rep.notes['nonzero_fields'] = {'%s.%s' % k: v for k, v in NONZERO_FIELDS.items()}
